@@ -59,7 +59,7 @@ func c10(c *Ctx) {
 			}
 			for i := range p.Events {
 				ev := &p.Events[i]
-				if ev.Depth != 0 || ev.Kind != core.EvCall {
+				if !own(ev) || ev.Kind != core.EvCall {
 					continue
 				}
 				_, isW := t.writeEvent(ev)
@@ -88,7 +88,7 @@ func c10(c *Ctx) {
 						if callsStatic(e2, t.writeFatal) && len(e2.Args) == 2 && e2.Args[1] == e {
 							fatal = true
 						}
-						if e2.Kind == core.EvCall && e2.Depth == 0 {
+						if e2.Kind == core.EvCall && own(e2) {
 							_, w2 := t.writeEvent(e2)
 							d2 := e2.Static == nil && e2.Method == t.mSetWD && t.isConnLoad(e2.Recv)
 							if w2 || d2 {
@@ -127,10 +127,17 @@ func c10(c *Ctx) {
 	for _, name := range []string{"(*Conn).write", "(*Conn).WriteControl", "(*Conn).writeBufs", "(*messageWriter).flushFrame", "(*messageWriter).ncopy",
 		"(*messageWriter).Write", "(*messageWriter).WriteString", "(*messageWriter).Close", "(*Conn).NextWriter", "(*Conn).WriteMessage",
 		"(*Conn).WriteJSON", "(*Conn).WritePreparedMessage", "(*flateWriteWrapper).Write", "(*flateWriteWrapper).Close", "(*truncWriter).Write"} {
-		n += c.errMustPropagate("C10.msg-error", c.fn(name), all, core.Opts{Unroll: 0, Pure: c.pureSet("isControl", "isData")})
+		fn := c.P.FuncOpt(name)
+		if fn == nil {
+			if name == "(*Conn).writeBufs" {
+				continue // private helper of write: may be inlined away
+			}
+			fn = c.fn(name)
+		}
+		n += c.errMustPropagate("C10.msg-error", fn, all, core.Opts{Unroll: 0, Pure: c.pureSet("isControl", "isData")})
 	}
 	n += c.errMustPropagate("C10.msg-error", c.fn("(*messageWriter).ReadFrom"), inPkgOnly, core.Opts{Unroll: 0})
-	r.Floor("C10.msg-error", 22)
+	r.Floor("C10.msg-error", 20)
 
 	c10invalid(c, t)
 	c10deadline(c, t)
@@ -218,7 +225,7 @@ func c10invalidAs(c *Ctx, t *transport, rule string) {
 		c.explore(rule, fn, core.Opts{Pure: pure}, func(p *core.Path) {
 			for i := range p.Events {
 				ev := &p.Events[i]
-				if !callsStatic(ev, wr) || ev.Depth != 0 {
+				if !callsStatic(ev, wr) || !own(ev) {
 					continue
 				}
 				ftArg := ev.Args[1]
@@ -309,7 +316,7 @@ func c10deadline(c *Ctx, t *transport) {
 		c.explore("C10.deadline", fn, core.Opts{}, func(p *core.Path) {
 			for i := range p.Events {
 				ev := &p.Events[i]
-				if _, w := t.writeEvent(ev); !w || ev.Depth != 0 {
+				if _, w := t.writeEvent(ev); !w || !own(ev) {
 					continue
 				}
 				acq, has := muAcquire(p, t.mu, i)
